@@ -75,6 +75,10 @@ func (h *Handler) handleDiscover(p packet.DHCP4, options packet.DHCP4Options) (d
 		if !bytes.Equal(lease.XID, p.XId()) { // new discover packet
 			lease.IPOffer = netip.Addr{}
 		}
+
+	// expired or declined lease: a stale offer must not be repeated unchecked
+	case StateFree:
+		lease.IPOffer = netip.Addr{}
 	}
 
 	if !lease.IPOffer.IsValid() {
